@@ -97,12 +97,17 @@ def lens_by_split(shape, leaves, rooted, pat):
         if i == 0:
             continue
         groups.setdefault(s, []).append(i)
-    fn = {"ones": lambda s: 1.0, "f1": _f1, "f2": _f2, "missing1": _f1, "missing_int": _f1, "rootlen": _f1}[pat]
+    fn = {"ones": lambda s: 1.0, "f1": _f1, "f2": _f2, "missing1": _f1, "missing_int": _f1, "rootlen": _f1, "half0": _f1, "half1": _f1}[pat]
     out = [None] * len(masks)
     for s, idxs in groups.items():
         l = fn(s)
         if len(idxs) == 1:
             out[idxs[0]] = l
+        elif len(idxs) == 2 and pat in ("half0", "half1"):
+            # the whole length of the tree's edge sits on one of the two edges that draw it, the other has none
+            k = 0 if pat == "half0" else 1
+            out[idxs[k]] = l
+            out[idxs[1 - k]] = None
         elif len(idxs) == 2:
             out[idxs[0]] = l / 2
             out[idxs[1]] = l / 2
@@ -248,7 +253,7 @@ def eval_pair(item):
         if not o_ab["any_missing"]:
             for tag, r, o in (("(a,b)", r_ab, o_ab), ("(b,a)", r_ba, o_ba)):
                 if r[0] == "refused":
-                    fails.append((fname + ".refused-without-missing-length", "%s%s refused (%s) although every non-seed edge has a length" % (fname, tag, r[1])))
+                    fails.append((fname + ".refused-without-missing-length", "%s%s refused (%s) although every edge of the tree has a length on some edge of its drawing" % (fname, tag, r[1])))
                 elif not _agree(fname, r[1], o[fname]):
                     fails.append((fname + ".value", "%s%s = %r, norm of the per-split length differences is %r" % (fname, tag, r[1], o[fname])))
         else:
@@ -273,7 +278,8 @@ def _w_pair0(item):
     fails, n = eval_pair(item)
     if len(item["a"]["leaves"]) == 2 and not item["a"]["rooted"]:
         # a two-leaf unrooted tree is a single edge drawn as two: triaged under its own name
-        fails = [(m + "@2-leaf-unrooted" if (".value" in m) else m, d) for m, d in fails]
+        fails = [(m + "@2-leaf-unrooted" if (".value" in m or ".refused-without-missing-length" in m or m.endswith(".updated.raises")) else m, d)
+                 for m, d in fails]
     return (pair_key(item["a"], item["b"]), len(item["a"]["leaves"]), fails, n)
 
 
@@ -316,7 +322,7 @@ def drawings(n, rooted, per_topology=3, unif=False):
 # (both argument orders are evaluated for every item, so mirrored pattern pairs would add little)
 PATTERN_PAIRS = [("none", "none"), ("ones", "ones"), ("f1", "f1"), ("f1", "f2"), ("rootlen", "f1"),
                  ("none", "f1"), ("missing1", "f1"), ("missing1", "missing1"), ("f2", "missing1"),
-                 ("missing_int", "f1"), ("f2", "missing_int")]
+                 ("missing_int", "f1"), ("f2", "missing_int"), ("half0", "f1"), ("half1", "half0")]
 
 
 def _pair_items(tier, seed):
@@ -363,7 +369,7 @@ def _pair_items(tier, seed):
                 for c, ds in dr.items():
                     for (sa, la) in ds:
                         for (sb, lb) in reps:
-                            for pa, pb in (("f1", "f2"), ("missing1", "f1"), ("f2", "missing_int")):
+                            for pa, pb in (("f1", "f2"), ("missing1", "f1"), ("f2", "missing_int"), ("half0", "f1"), ("half1", "half0")):
                                 items.append({"a": mkspec(sa, [ren[x] for x in la], rooted, pa, nsd),
                                               "b": mkspec(sb, [ren[x] for x in lb], rooted, pb, nsd)})
     return items
